@@ -1,6 +1,7 @@
 (* C17 — suggestions heal: certifying what is suggested makes vet pass. *)
 Require Import Base Extracted Criteria Search AuditGraph DepGraph Resolve Show Suggest.
 Require Import CriteriaProofs ResolveProofs ResolveTheorems SuggestProofs SuggestHeal Witness.
+Require Import Guess GuessProofs.
 Local Open Scope N_scope.
 
 (* the pair (from, to) that suggest_delta picks lies, for EVERY failed criterion of
@@ -75,8 +76,22 @@ Example C17_nonvacuous :
   (has_errors (resolve w_graph (apply_items w_store_failing (compute_suggest w_dc w_hs (resolve w_graph w_store_failing)))) = false).
 Proof. vm_compute. split; [eexists; split; reflexivity|auto]. Qed.
 
+(* the same for the command as a whole (Guess.v, model of main.rs guess_audit_criteria: a first look at the store as it is,
+   and only when that finds nothing a second look at the store cloned for `suggest`, i.e. without the exemptions cargo-vet may
+   replace): every criterion `certify` pre-selects is one for which the delta connects, in one of the two stores *)
+Theorem C17_certify_guess_connects : forall inp live s name from to c,
+  cs_has c (guess_audit_criteria inp live s name from to) = true ->
+  connects (resolve inp s) name from to c \/ connects (resolve inp (store_for_suggest live s)) name from to c.
+Proof. exact guess_connects. Qed.
+Theorem C17_certify_guess_first_look_wins : forall inp live s name from to,
+  cs_is_empty (suggested_criteria (resolve inp s) name from to) = false ->
+  guess_audit_criteria inp live s name from to = suggested_criteria (resolve inp s) name from to.
+Proof. exact guess_first_look_wins. Qed.
+
 Print Assumptions C17_suggested_pair_is_common.
 Print Assumptions C17_candidate_heals.
 Print Assumptions C17_preselected_criteria_connect.
 Print Assumptions C17_dedup_keeps_all_criteria.
 Print Assumptions C17_certifying_every_suggestion_makes_vet_pass.
+Print Assumptions C17_certify_guess_connects.
+Print Assumptions C17_certify_guess_first_look_wins.
